@@ -33,7 +33,12 @@ def bounded_task():
                cases=c20.count_cases(), seconds=time.time() - t0, backend="enumeration")
         if hit:
             r.replay, r.witness = hit, hit["input"]
-        return [r]
+        kt = c20.known_tolerated()
+        k = OR(id=f"{PROP}.Bd.project.reported_but_not_skipped", status=REFUTED if kt else PROVED, kind="Bd", role="bounded", target="ford.sourceform.FortranContainer.print_error (dbg on)",
+               desc="a file with a misplaced CONTAINS is reported AND skipped", bound="1 corruption", cases=1, backend="enumeration", known="C20-reported-not-skipped")
+        if kt:
+            k.replay, k.witness = kt, kt["input"]
+        return [r, k]
     return Task(f"{PROP}.Bd.project", PROP, "real pipeline", run)
 
 
